@@ -176,10 +176,12 @@ def run_shard(sh, ctx):
 				sa = SignatureArray(arrs[w0], None, dtype=np.dtype(w0))
 				qa_ = SignatureArray(arrs[wl], None, dtype=np.dtype(wl))
 				rr_ = __import__('random').Random(n)
-				for sel, chunk in ((list(range(1, n)) + [0], 3), (rr_.sample(range(n), n), None), (rr_.sample(range(n), n), 4)):
+				neg_ = [j - n for j in rr_.sample(range(n), n)]                       # every reference counted from the end
+				mix_ = [j - n if k_ % 2 else j for k_, j in enumerate(rr_.sample(range(n), n))]
+				for sel, chunk in ((list(range(1, n)) + [0], 3), (rr_.sample(range(n), n), None), (rr_.sample(range(n), n), 4), (neg_, None), (mix_, 5), (np.array(neg_, dtype='i8'), 7)):
 					Mx = gm.jaccarddist_matrix(qa_, sa, ref_indices=sel, chunksize=chunk)
 					for pos, j in enumerate(sel):
-						Tb[:, j] = Mx[:, pos]
+						Tb[:, int(j) % n] = Mx[:, pos]
 					if not np.array_equal(Tb, base):
 						break
 			elif cname == 'two slices of one open signature file':
